@@ -90,7 +90,7 @@ func callsSymbolOfNegative(v ssa.Value) bool {
 
 func c19(c *core.Check) {
 	p := c.Prog
-	c.Explain = "Structural necessary conditions of counter rendering, decided on the type-checked source: no integer division or modulo of css/counters can see a zero divisor and no modulo result that indexes the symbol list can be negative (path-condition reachability under the scenarios divisor==0 / dividend<0, with coinductive reasoning on loop-carried values); the vocabulary of counter systems agrees between the @counter-style validator, symbols(), Validate and the renderer; each system name dispatches to its algorithm, the negative-sign set and the automatic ranges are those of Counter Styles 3; the extends and fallback walks consult and extend a visited set. The arithmetic of each system and counter scoping are not decided. Also decided: (R6) extends merges a descriptor only when the extending style did not set it (whole-field tests)."
+	c.Explain = "Structural necessary conditions of counter rendering, decided on the type-checked source: no integer division or modulo of css/counters can see a zero divisor and no modulo result that indexes the symbol list can be negative (path-condition reachability under the scenarios divisor==0 / dividend<0, with coinductive reasoning on loop-carried values); the vocabulary of counter systems agrees between the @counter-style validator, symbols(), Validate and the renderer; each system name dispatches to its algorithm, the negative-sign set and the automatic ranges are those of Counter Styles 3; the extends and fallback walks consult and extend a visited set. The arithmetic of each system and counter scoping are not decided. Also decided: (R6) extends merges a descriptor only when the extending style did not set it (whole-field tests). Also decided: (R10) decimal, the last resort, accepts every integer (unbounded automatic range)."
 	c.Assume = []string{"the counter style named decimal cannot be redefined by a document once the user-agent sheet defined it (validation.ParseCounterStyleName refuses it), so falling back to decimal terminates"}
 
 	c19Merge(c)
